@@ -396,7 +396,7 @@ bloc_literal(bloc_value* v, const char **buf)
   try
   {
     bloc::Literal * str = reinterpret_cast<bloc::Value*>(v)->literal();
-    *buf = str->data();
+    *buf = (str ? str->data() : nullptr);
     return bloc_true;
   }
   catch (bloc::RuntimeError& re)
@@ -412,8 +412,8 @@ bloc_tabchar(bloc_value* v, const char **buf, unsigned *len)
   try
   {
     bloc::TabChar * tc = reinterpret_cast<bloc::Value*>(v)->tabchar();
-    *buf = tc->data();
-    *len = (unsigned)tc->size();
+    *buf = (tc ? tc->data() : nullptr);
+    *len = (tc ? (unsigned)tc->size() : 0);
     return bloc_true;
   }
   catch (bloc::RuntimeError& re)
